@@ -181,6 +181,29 @@ def run(ctx):
                                     "defeated by NaN: out-of-range values wrap instead of saturating)",
                                     {"in": inT, "out": outT, "preserve_input": preserve, "value": str(a[i]),
                                      "alone": str(y[i]), "next_to_nan": str(ym[1::2][i])})
+        # the conversion is element-wise: what a value becomes does not depend on the other values of the chunk. Small
+        # sub-arrays (one boundary value among in-range ones) defeat shortcuts taken after a min/max pre-check
+        small = [i for i in range(len(a)) if din.kind != "f" or np.isfinite(a[i])]
+        inrange = [i for i in small if dout.kind == "f" or
+                   (np.iinfo(dout).min <= (int(a[i]) if din.kind != "f" else float(a[i])) <= np.iinfo(dout).max // 2)]
+        for i in small:
+            idxs = [i] + (rng.sample(inrange, min(2, len(inrange))) if inrange else [])
+            sub = a[idxs].copy()
+            with np.errstate(all="ignore"):
+                try:
+                    ys = t(sub, preserve_input=rng.random() < 0.5)
+                except Exception as exc:  # noqa
+                    ctx.oracle_fail(f"conversion of a small chunk raised {type(exc).__name__}: {exc}",
+                                    {"in": inT, "out": outT, "values": [str(v) for v in sub]})
+                    continue
+            ctx.bump("sub_arrays")
+            if ys.tobytes() != y[idxs].tobytes():
+                j = next(j for j in range(len(idxs)) if ys[j:j + 1].tobytes() != y[idxs[j]:idxs[j] + 1].tobytes())
+                ctx.oracle_fail("a value converts differently depending on the other values of the chunk (a shortcut "
+                                "taken when the chunk looks in range)",
+                                {"in": inT, "out": outT, "chunk": [str(v) for v in sub], "value": str(sub[j]),
+                                 "in_this_chunk": str(ys[j]), "in_the_full_array": str(y[idxs[j]])})
+                break
         items = []
         for v, got in zip(vals, y):
             n, k = exact(v)
